@@ -210,6 +210,8 @@ func (vm *Vm) runErrCheck(ctx context.Context, b []byte, err error) ([]byte, err
 	if !v {
 		return b, err
 	}
+	// LOADFAIL concerns the instruction that raised it only
+	vm.st.ResetFlag(state.FLAG_LOADFAIL)
 
 	b = NewLine(nil, MOVE, []string{"_catch"}, nil, nil)
 	return b, nil
